@@ -134,18 +134,14 @@ theorem bufStep_fill (rw : Rune → Int) (b : Buf) (r : Rune) (st : Style) (hst 
   · intro _ i j; left; simp [Cell.filled, hr]
   · intro _ i j; simp only [fill_cells, Cell.filled]; exact hst
 
-/-- Fill of either tree (`Buf.fillV`), for the runes `ScrOp.Valid` admits -/
-theorem bufStep_fillV (fz : Bool) (rw : Rune → Int) (b : Buf) (r : Rune) (st : Style) (hst : st.attrs ≠ attrInvalid)
-    (hr : rw r = 1 ∨ (fz = true ∧ rw r = 0)) : BufStep rw b (b.fillV fz rw r st) := by
+/-- Fill of either tree (`Buf.fillV`), for the runes `ScrOp.Valid` admits: the repaired Fill stores a blank for a
+zero-width rune, so this is `bufStep_fill` at the substituted rune -/
+theorem bufStep_fillV (fz : Bool) (rw : Rune → Int) (h32 : rw 32 = 1) (b : Buf) (r : Rune) (st : Style)
+    (hst : st.attrs ≠ attrInvalid) (hr : rw r = 1 ∨ (fz = true ∧ rw r = 0)) : BufStep rw b (b.fillV fz rw r st) := by
+  rw [fillV_eq]
   rcases hr with hr | ⟨hf, hr⟩
-  · rw [fillV_of_ne0 fz rw b r st (by omega)]; exact bufStep_fill rw b r st hst hr
-  · subst hf
-    refine { w := rfl, h := rfl, keep := ?_, dirty := ?_, wok := ?_, valid := ?_ }
-    · intro i j hl hm; simp only [fillV_cells, Cell.filledW_lock, Cell.filledW_lastMain, Cell.filledW_last] at hl hm ⊢
-      exact ⟨hl, hm, trivial⟩
-    · intro i j h0; simpa using h0
-    · intro _ i j; left; simp [Cell.fillWidth_true_zero rw r hr, hr]
-    · intro _ i j; simp only [fillV_cells, Cell.filledW_currStyle]; exact hst
+  · rw [Cell.fillRune_ne0 fz rw r (by omega)]; exact bufStep_fill rw b r st hst hr
+  · subst hf; rw [Cell.fillRune_true_zero rw r hr]; exact bufStep_fill rw b 32 st hst h32
 
 theorem bufStep_lockCell (rw : Rune → Int) (b : Buf) (x y : Int) : BufStep rw b (b.lockCell x y) := by
   refine { w := by simp, h := by simp, keep := ?_, dirty := ?_, wok := ?_, valid := ?_ }
@@ -193,9 +189,289 @@ theorem bufStep_lockRows (rw : Rune → Int) (b : Buf) (x y w : Int) (lock : Boo
   | zero => exact BufStep.refl rw b
   | succ m ih => simp only [lockRows]; exact ih.trans (bufStep_lockRow rw _ _ _ _ _)
 
+theorem bufStep_setDirtyTrue (rw : Rune → Int) (b : Buf) (x y : Int) : BufStep rw b (b.setDirty x y true) := by
+  refine { w := by simp, h := by simp, keep := ?_, dirty := ?_, wok := ?_, valid := ?_ }
+  · intro i j hl hm; rw [setDirty_true_cells] at hl hm ⊢
+    split at hm
+    · simp at hm
+    · rename_i h; rw [if_neg h] at hl ⊢; exact ⟨hl, hm, rfl⟩
+  · intro i j h0; rw [setDirty_true_cells]; split <;> simp [h0]
+  · intro hw i j; rw [setDirty_true_cells]; split
+    · exact wok_markDirty _ (hw i j)
+    · exact hw i j
+  · intro hv i j; rw [setDirty_true_cells]; split
+    · simpa using hv i j
+    · exact hv i j
+
+theorem bufStep_lockRowsG (rw : Rune → Int) (b : Buf) (x y w : Int) (lock : Bool) :
+    ∀ m, BufStep rw b (lockRowsG b x y w lock m) := by
+  intro m
+  induction m with
+  | zero => exact BufStep.refl rw b
+  | succ m ih =>
+    simp only [lockRowsG]
+    have h1 := ih.trans (bufStep_lockRow rw (lockRowsG b x y w lock m) x (y + m) lock w.toNat)
+    split
+    · unfold redirtyLeft; split
+      · exact h1.trans (bufStep_setDirtyTrue rw _ _ _)
+      · exact h1
+    · exact h1
+
+/-! ### the guarded blank survives application-level buffer operations (repaired drawCell) -/
+
+theorem gcw_eq (b : Buf) (i j : Int) : (b.getContent i j).2.2.2 =
+    if b.inRange i j then (if (b.cells i j).width = 0 ∨ (b.cells i j).currMain < 32 then 1 else (b.cells i j).width) else 0 := by
+  unfold getContent
+  split
+  · simp only; split <;> rfl
+  · rfl
+
+/-- `BlankOk` reads the stored width and rune of the cell and the lock of its right neighbour; locking more cells keeps it -/
+theorem BlankOk.of_same {b b' : Buf} {i j : Int} (h : BlankOk b i j) (hw : b'.w = b.w) (hh : b'.h = b.h)
+    (hc : (b'.cells i j).width = (b.cells i j).width ∧ (b'.cells i j).currMain = (b.cells i j).currMain)
+    (hl : (b'.cells (i + 1) j).lock = true ∨ (b'.cells (i + 1) j).lock = (b.cells (i + 1) j).lock) : BlankOk b' i j := by
+  unfold BlankOk at h ⊢
+  rw [gcw_eq] at h ⊢
+  simp only [Buf.locked, inRange_iff, hw, hh, hc.1, hc.2] at h ⊢
+  refine ⟨h.1, ?_⟩
+  rcases h.2 with h2 | h2
+  · left
+    split at h2
+    · rename_i hr; rw [if_pos hr]
+      rcases hl with hl | hl
+      · exact hl
+      · rw [hl]; exact h2
+    · exact absurd h2 (by simp)
+  · right; exact h2
+
+theorem setContent_lock (rw : Rune → Int) (b : Buf) (x y : Int) (m : Rune) (comb : List Rune) (st : Style) (i j : Int) :
+    ((b.setContent rw x y m comb st).cells i j).lock = (b.cells i j).lock := by
+  rw [setContent_cells]
+  split
+  · split
+    · simp only [Cell.store_lock]
+      rcases preDirty_cases b x y m comb i j with e | e <;> rw [e] <;> simp
+    · rcases preDirty_cases b x y m comb i j with e | e <;> rw [e] <;> simp
+  · rfl
+
+theorem setContent_blank (rw : Rune → Int) (b : Buf) (x y : Int) (m : Rune) (comb : List Rune) (st : Style) (i j : Int)
+    (hm : ((b.setContent rw x y m comb st).cells i j).lastMain ≠ 0) (h : BlankOk b i j) :
+    BlankOk (b.setContent rw x y m comb st) i j := by
+  refine h.of_same (by simp) (by simp) ?_ (Or.inr (setContent_lock ..))
+  rw [setContent_cells] at hm ⊢
+  split
+  · rename_i hr
+    rw [if_pos hr] at hm
+    split
+    · rename_i hxy
+      obtain ⟨rfl, rfl⟩ := hxy
+      rw [if_pos ⟨rfl, rfl⟩] at hm
+      simp only [Cell.store_lastMain] at hm
+      rw [preDirty_cells] at hm ⊢
+      by_cases hch : m ≠ (b.cells i j).currMain ∨ comb ≠ (b.cells i j).currComb
+      · exfalso
+        have hpos := h.1
+        have hc : ((b.cells i j).width > 0 ∧ (m ≠ (b.cells i j).currMain ∨ comb ≠ (b.cells i j).currComb)) ∧
+            j = j ∧ i ≤ i ∧ i < i + (b.cells i j).width ∧ b.inRange i j := ⟨⟨hpos, hch⟩, rfl, Int.le_refl _, by omega, hr⟩
+        rw [if_pos hc] at hm; simp at hm
+      · have hc : ¬ (((b.cells i j).width > 0 ∧ (m ≠ (b.cells i j).currMain ∨ comb ≠ (b.cells i j).currComb)) ∧
+            j = j ∧ i ≤ i ∧ i < i + (b.cells i j).width ∧ b.inRange i j) := fun hh => hch hh.1.2
+        rw [if_neg hc]
+        have hmm : (b.cells i j).currMain = m := by
+          by_cases e : m = (b.cells i j).currMain
+          · exact e.symm
+          · exact absurd (Or.inl e) hch
+        simp only [Cell.store_width, Cell.store_currMain, hmm, ne_eq, not_true_eq_false, if_false, and_self]
+    · rename_i hxy
+      rw [if_neg hxy] at hm
+      rcases preDirty_cases b x y m comb i j with e | e
+      · rw [e]; exact ⟨rfl, rfl⟩
+      · rw [e] at hm; simp at hm
+  · exact ⟨rfl, rfl⟩
+
+theorem fill_blank (b : Buf) (r : Rune) (st : Style) (i j : Int) : BlankOk (b.fill r st) i j := by
+  unfold BlankOk
+  refine ⟨by simp, Or.inr ?_⟩
+  rw [gcw_eq]; simp only [fill_cells, Cell.filled_width]
+  split
+  · simp
+  · omega
+
+/-- Fill of either tree records width 1 in every cell, so every cell satisfies `BlankOk` afterwards -/
+theorem fillV_blank (fz : Bool) (rw : Rune → Int) (b : Buf) (r : Rune) (st : Style) (i j : Int) :
+    BlankOk (b.fillV fz rw r st) i j := by
+  rw [fillV_eq]; exact fill_blank b _ st i j
+
+theorem lockCell_blank (b : Buf) (x y : Int) (i j : Int) (h : BlankOk b i j) : BlankOk (b.lockCell x y) i j := by
+  refine h.of_same (by simp) (by simp) ?_ ?_
+  · rw [lockCell_cells]; split <;> simp
+  · rw [lockCell_cells]; split
+    · left; simp
+    · right; rfl
+
+theorem lockRow_true_blank (b : Buf) (x y : Int) (i j : Int) (h : BlankOk b i j) : ∀ n, BlankOk (lockRow b x y true n) i j := by
+  intro n
+  induction n with
+  | zero => exact h
+  | succ n ih => simp only [lockRow, if_true]; exact lockCell_blank _ _ _ _ _ ih
+
+theorem lockRowsG_true_blank (b : Buf) (x y w : Int) (i j : Int) (h : BlankOk b i j) :
+    ∀ m, BlankOk (lockRowsG b x y w true m) i j := by
+  intro m
+  induction m with
+  | zero => exact h
+  | succ m ih =>
+    simp only [lockRowsG, Bool.true_eq_false, false_and, if_false]
+    exact lockRow_true_blank _ _ _ _ _ ih _
+
+/-- closed form of one row of an unlocking LockRegion -/
+theorem lockRow_false_cells (b : Buf) (x y : Int) (n : Nat) (i j : Int) :
+    (lockRow b x y false n).w = b.w ∧ (lockRow b x y false n).h = b.h ∧
+    (lockRow b x y false n).cells i j =
+      if j = y ∧ x ≤ i ∧ i < x + n ∧ b.inRange i j then ((b.cells i j).setLock false).markDirty else b.cells i j := by
+  induction n with
+  | zero =>
+    refine ⟨rfl, rfl, ?_⟩
+    simp only [lockRow]; split
+    · omega
+    · rfl
+  | succ n ih =>
+    obtain ⟨h1, h2, h3⟩ := ih
+    simp only [lockRow, Bool.false_eq_true, if_false]
+    refine ⟨by simp [h1], by simp [h2], ?_⟩
+    rw [unlockCell_cells, h3]
+    simp only [inRange_iff, h1, h2]
+    have hc : ((n + 1 : Nat) : Int) = (n : Int) + 1 := by omega
+    rw [hc]
+    split <;> split <;> (try split) <;> first | rfl | (exfalso; omega) | skip
+    all_goals simp [Cell.setLock, Cell.markDirty]
+
+/-- what an unlocking LockRegion of the repaired tree has done after `m` rows -/
+structure URel (b b' : Buf) (x y w : Int) (m : Nat) : Prop where
+  dw : b'.w = b.w
+  dh : b'.h = b.h
+  cont : ∀ i j, (b'.cells i j).width = (b.cells i j).width ∧ (b'.cells i j).currMain = (b.cells i j).currMain
+  lock : ∀ i j, (b'.cells i j).lock = (b.cells i j).lock ∨
+    ((b'.cells i j).lock = false ∧ x ≤ i ∧ i < x + w.toNat ∧ y ≤ j ∧ j < y + m)
+  zero : ∀ i j, (b.cells i j).lastMain = 0 → (b'.cells i j).lastMain = 0
+  reg : ∀ i j, b.inRange i j → x ≤ i → i < x + w.toNat → y ≤ j → j < y + m → (b'.cells i j).lastMain = 0
+  left : ∀ j, b.inRange (x - 1) j → 0 < w → y ≤ j → j < y + m → (b.getContent (x - 1) j).2.2.2 > 1 →
+    (b'.cells (x - 1) j).lastMain = 0
+
+theorem URel.refl (b : Buf) (x y w : Int) : URel b b x y w 0 :=
+  { dw := rfl, dh := rfl, cont := fun _ _ => ⟨rfl, rfl⟩, lock := fun _ _ => Or.inl rfl, zero := fun _ _ h => h,
+    reg := by intro i j _ _ _ h1 h2; omega, left := by intro j _ _ h1 h2; omega }
+
+theorem lockRowsG_false_urel (b : Buf) (x y w : Int) : ∀ m, URel b (lockRowsG b x y w false m) x y w m := by
+  intro m
+  induction m with
+  | zero => exact URel.refl b x y w
+  | succ m ih =>
+    generalize hb1 : lockRowsG b x y w false m = b1 at ih
+    have hrow := fun i j => lockRow_false_cells b1 x (y + m) w.toNat i j
+    generalize hb2 : lockRow b1 x (y + m) false w.toNat = b2 at hrow
+    have h2w : b2.w = b.w := (hrow 0 0).1.trans ih.dw
+    have h2h : b2.h = b.h := (hrow 0 0).2.1.trans ih.dh
+    have hr1 : ∀ i j, b1.inRange i j ↔ b.inRange i j := by intro i j; simp only [inRange_iff, ih.dw, ih.dh]
+    have h2c : ∀ i j, b2.cells i j =
+        if j = y + m ∧ x ≤ i ∧ i < x + w.toNat ∧ b.inRange i j then ((b1.cells i j).setLock false).markDirty else b1.cells i j := by
+      intro i j; rw [(hrow i j).2.2]; simp only [hr1]
+    have hg2 : (b2.getContent (x - 1) (y + m)).2.2.2 = (b.getContent (x - 1) (y + m)).2.2.2 := by
+      rw [gcw_eq, gcw_eq]; simp only [inRange_iff, h2w, h2h]
+      have : (b2.cells (x - 1) (y + m)).width = (b.cells (x - 1) (y + m)).width ∧
+          (b2.cells (x - 1) (y + m)).currMain = (b.cells (x - 1) (y + m)).currMain := by
+        rw [h2c]; split
+        · simpa [Cell.setLock, Cell.markDirty] using ih.cont (x - 1) (y + m)
+        · exact ih.cont _ _
+      rw [this.1, this.2]
+    -- the row step: lockRow, then the re-dirtying of the left neighbour
+    have hstep : lockRowsG b x y w false (m + 1) =
+        if w > 0 then redirtyLeft b2 x (y + m) else b2 := by
+      simp only [lockRowsG, hb1, hb2, true_and]
+    rw [hstep]
+    -- closed form of the result
+    have h3 : ∀ (b3 : Buf), b3 = (if w > 0 then redirtyLeft b2 x (y + m) else b2) →
+        b3.w = b.w ∧ b3.h = b.h ∧ ∀ i j, b3.cells i j =
+          if i = x - 1 ∧ j = y + m ∧ w > 0 ∧ (b.getContent (x - 1) (y + m)).2.2.2 > 1 ∧ b.inRange (x - 1) (y + m)
+          then (b2.cells i j).markDirty else b2.cells i j := by
+      intro b3 e
+      by_cases hw : w > 0
+      · rw [if_pos hw] at e
+        unfold redirtyLeft at e
+        rw [hg2] at e
+        by_cases hg : (b.getContent (x - 1) (y + m)).2.2.2 > 1
+        · rw [if_pos hg] at e; rw [e]
+          refine ⟨by simp [h2w], by simp [h2h], ?_⟩
+          intro i j; rw [setDirty_true_cells]; simp only [inRange_iff, h2w, h2h, hw, hg, true_and]
+        · rw [if_neg hg] at e; rw [e]
+          refine ⟨h2w, h2h, ?_⟩
+          intro i j; rw [if_neg (fun hh => hg hh.2.2.2.1)]
+      · rw [if_neg hw] at e; rw [e]
+        refine ⟨h2w, h2h, ?_⟩
+        intro i j; rw [if_neg (fun hh => hw hh.2.2.1)]
+    obtain ⟨h3w, h3h, h3c⟩ := h3 _ rfl
+    generalize (if w > 0 then redirtyLeft b2 x (y + m) else b2) = b3 at h3w h3h h3c
+    have hcm : ((m + 1 : Nat) : Int) = (m : Int) + 1 := by omega
+    refine { dw := h3w, dh := h3h, cont := ?_, lock := ?_, zero := ?_, reg := ?_, left := ?_ }
+    · intro i j; rw [h3c, h2c]
+      split <;> split <;> simpa [Cell.setLock, Cell.markDirty] using ih.cont i j
+    · intro i j; rw [h3c, h2c, hcm]
+      have hlm : ∀ cl : Cell, cl.markDirty.lock = cl.lock := fun _ => rfl
+      by_cases hrg : j = y + m ∧ x ≤ i ∧ i < x + w.toNat ∧ b.inRange i j
+      · right; rw [if_pos hrg]
+        refine ⟨by split <;> simp [Cell.setLock, Cell.markDirty], hrg.2.1, hrg.2.2.1, by omega, by omega⟩
+      · rw [if_neg hrg]
+        have : (if i = x - 1 ∧ j = y + m ∧ w > 0 ∧ (b.getContent (x - 1) (y + m)).2.2.2 > 1 ∧ b.inRange (x - 1) (y + m)
+            then (b1.cells i j).markDirty else b1.cells i j).lock = (b1.cells i j).lock := by split <;> rfl
+        rw [this]
+        rcases ih.lock i j with h | h
+        · left; exact h
+        · right; exact ⟨h.1, h.2.1, h.2.2.1, h.2.2.2.1, by omega⟩
+    · intro i j h0; rw [h3c, h2c]
+      have := ih.zero i j h0
+      split <;> split <;> simp [Cell.setLock, Cell.markDirty, this]
+    · intro i j hr a1 a2 a3 a4; rw [h3c, h2c]
+      rw [hcm] at a4
+      by_cases hj : j = y + m
+      · have hrg : j = y + m ∧ x ≤ i ∧ i < x + w.toNat ∧ b.inRange i j := ⟨hj, a1, a2, hr⟩
+        rw [if_pos hrg]; split <;> simp [Cell.setLock, Cell.markDirty]
+      · have := ih.reg i j hr a1 a2 a3 (by omega)
+        split <;> split <;> simp [Cell.setLock, Cell.markDirty, this]
+    · intro j hr hw a3 a4 hg; rw [h3c, h2c]
+      rw [hcm] at a4
+      by_cases hj : j = y + m
+      · subst hj
+        rw [if_pos ⟨rfl, rfl, hw, hg, hr⟩]; simp [Cell.markDirty]
+      · have := ih.left j hr hw a3 (by omega) hg
+        split <;> split <;> simp [Cell.setLock, Cell.markDirty, this]
+
+/-- LockRegion(…, false) of the repaired tree keeps what the invariant remembers about guarded blanks: a cell whose right
+neighbour gets unlocked is itself unlocked-and-dirtied (inside the region) or re-dirtied (just left of it) -/
+theorem lockRowsG_false_blank (b : Buf) (x y w : Int) (m : Nat) (i j : Int)
+    (hr : b.inRange i j) (hm : ((lockRowsG b x y w false m).cells i j).lastMain ≠ 0) (h : BlankOk b i j) :
+    BlankOk (lockRowsG b x y w false m) i j := by
+  have u := lockRowsG_false_urel b x y w m
+  by_cases hg : (b.getContent i j).2.2.2 ≤ 1
+  · unfold BlankOk at h ⊢
+    refine ⟨by rw [(u.cont i j).1]; exact h.1, Or.inr ?_⟩
+    rw [gcw_eq] at hg ⊢
+    simp only [inRange_iff, u.dw, u.dh, (u.cont i j).1, (u.cont i j).2] at hg ⊢
+    exact hg
+  · rcases u.lock (i + 1) j with hl | hl
+    · exact h.of_same u.dw u.dh (u.cont i j) (Or.inr hl)
+    · exfalso
+      apply hm
+      by_cases hx : x ≤ i
+      · exact u.reg i j hr hx (by omega) hl.2.2.2.1 hl.2.2.2.2
+      · have e : i = x - 1 := by omega
+        subst e
+        exact u.left j hr (by omega) hl.2.2.2.1 hl.2.2.2.2 (by omega)
+
 /-- application-level buffer operations preserve the cross-Show invariant -/
 theorem SyncInv.bufStep {c : DrawCfg} {d : Option Style} {s s' : Scr} {t : ATerm} (inv : SyncInv c d s t)
-    (hb : BufStep c.rw s.cells s'.cells) (hw : s'.w = s.w) (hh : s'.h = s.h) (hs : s'.style = s.style) :
+    (hb : BufStep c.rw s.cells s'.cells) (hw : s'.w = s.w) (hh : s'.h = s.h) (hs : s'.style = s.style)
+    (hblank : c.guardLocked = true → ∀ i j, s.cells.inRange i j → (s'.cells.cells i j).lastMain ≠ 0 →
+      BlankOk s.cells i j → BlankOk s'.cells i j) :
     SyncInv c d s' t := by
   have hir : ∀ i j, s'.cells.inRange i j ↔ s.cells.inRange i j := by
     intro i j; simp only [inRange_iff, hb.w, hb.h]
@@ -204,9 +480,13 @@ theorem SyncInv.bufStep {c : DrawCfg} {d : Option Style} {s s' : Scr} {t : ATerm
            valid := ⟨by rw [hs]; exact inv.valid.1, hb.valid inv.valid.2⟩, g1 := ?_, g2 := ?_, wf := ?_, g3 := ?_ }
   · intro x y hr hl hm
     obtain ⟨k1, k2, k3⟩ := hb.keep x y hl hm
-    obtain ⟨st', g1, g2, g3⟩ := inv.g1 x y ((hir x y).1 hr) k1 k2
+    obtain ⟨st', nl, g1, g2, g3, g4⟩ := inv.g1 x y ((hir x y).1 hr) k1 k2
     simp only [Cell.last] at k3; injection k3 with e1 e2; injection e2 with e2 e3
-    rw [hw, e1, e2, e3]; exact ⟨st', g1, g2, g3⟩
+    rw [hw, e1, e2, e3]
+    refine ⟨st', nl, g1, g2, g3, ?_⟩
+    intro a1 a2
+    obtain ⟨b1, b2⟩ := g4 a1 a2
+    exact ⟨b1, hblank b1 x y ((hir x y).1 hr) hm b2⟩
   · intro x y hr hc
     rcases inv.g2 x y ((hir x y).1 hr) hc with h | h
     · cases hl : (s'.cells.cells x y).lock
@@ -216,11 +496,10 @@ theorem SyncInv.bufStep {c : DrawCfg} {d : Option Style} {s s' : Scr} {t : ATerm
       · exact Or.inl rfl
     · exact Or.inr (hb.dirty x y h)
   · intro x y hr hc; exact inv.wf x y ((hir x y).1 hr) hc
-  · intro x y hr hl hm hsw hlt
-    obtain ⟨k1, k2, k3⟩ := hb.keep x y hl hm
-    simp only [Cell.last] at k3; injection k3 with e1 e2; injection e2 with e2 e3
-    rw [hw, e1, e2] at hsw; rw [hw] at hlt
-    exact inv.g3 x y ((hir x y).1 hr) k1 k2 hsw hlt
+  · intro x y hr hl hm b st hsh hlt
+    obtain ⟨k1, k2, _⟩ := hb.keep x y hl hm
+    rw [hw] at hlt
+    exact inv.g3 x y ((hir x y).1 hr) k1 k2 b st hsh hlt
 
 end Tcell
 
@@ -311,18 +590,24 @@ end Tcell
 namespace Tcell
 open Buf
 
-/-- what the terminal displays, stated on a world (used right after a draw) -/
-structure Displays (c : DrawCfg) (wd : World) : Prop where
-  /-- every unlocked cell the draw loop visits (= not the hidden right half of a wide rune) is clean and the
-  terminal shows its current content, two columns wide for a wide rune, blank for a wide rune in the last column -/
-  cells : ∀ x y, wd.sw.s.cells.inRange x y → visited c.rw wd.sw.s.cells x y = true →
-    (wd.sw.s.cells.cells x y).lock = false →
-      wd.sw.s.cells.dirty x y = false ∧
-      ∃ st', wd.t.grid x y = shownOf c wd.sw.s.w x (wd.sw.s.cells.cells x y).currMain (wd.sw.s.cells.cells x y).currComb st' ∧
+/-- what the terminal displays, stated on a world right after a draw whose loop started from buffer `pre` -/
+structure Displays (c : DrawCfg) (pre : Buf) (wd : World) : Prop where
+  /-- the draw changed neither the size, nor what the cells hold, nor the locks -/
+  same : wd.sw.s.cells.w = pre.w ∧ wd.sw.s.cells.h = pre.h ∧ (∀ i j, wd.sw.s.cells.getContent i j = pre.getContent i j) ∧
+    ∀ i j, (wd.sw.s.cells.cells i j).lock = (pre.cells i j).lock
+  /-- every unlocked cell the draw loop visited (= not the hidden right half of a wide rune) is clean now -/
+  cleaned : ∀ x y, pre.inRange x y → visitedG c pre x y = true → (pre.cells x y).lock = false →
+    wd.sw.s.cells.dirty x y = false
+  /-- every clean unlocked cell — in particular every visited one — shows its current content in its style: two columns wide
+  for a wide rune, a blank for a wide rune in the last column, and (`nl`, repaired drawCell only) a blank of width 1 for a
+  wide rune whose right neighbour is locked *now*; a two-column glyph has its continuation cell -/
+  cells : ∀ x y, wd.sw.s.cells.inRange x y → (wd.sw.s.cells.cells x y).lock = false → wd.sw.s.cells.dirty x y = false →
+      ∃ st' nl, wd.t.grid x y = shownOfG c wd.sw.s.w x (wd.sw.s.cells.cells x y).currMain (wd.sw.s.cells.cells x y).currComb st' nl ∧
         ((wd.sw.s.cells.cells x y).currStyle ≠ {} → st' = (wd.sw.s.cells.cells x y).currStyle) ∧
         ((wd.sw.s.cells.cells x y).currStyle = {} → ∀ d', wd.d = some d' → st' = d') ∧
-        (shownWidth c wd.sw.s.w x (wd.sw.s.cells.cells x y).currMain (wd.sw.s.cells.cells x y).currComb > 1 →
-          x + 1 < wd.sw.s.w → wd.t.grid (x + 1) y = .cont)
+        (nl = true → obsWidth c.rw (wd.sw.s.cells.cells x y).currMain > 1 →
+          c.guardLocked = true ∧ wd.sw.s.cells.locked (x + 1) y = true) ∧
+        (∀ b st, wd.t.grid x y = .shown b true st → x + 1 < wd.sw.s.w → wd.t.grid (x + 1) y = .cont)
   /-- the cursor is visible at the requested cell, or hidden (parked bottom-right if it cannot be hidden) -/
   cursor :
     (wd.sw.s.cells.inRange wd.sw.s.cursorx wd.sw.s.cursory →
@@ -332,32 +617,43 @@ structure Displays (c : DrawCfg) (wd : World) : Prop where
       (c.hasHide = true → wd.t.visible = some false) ∧
       (c.hasHide = false → wd.t.cur = some (wd.t.clampX wd.sw.s.w, wd.t.clampY wd.sw.s.h)))
 
-theorem visited_congr (rw : Rune → Int) (b b' : Buf) (hw : b'.w = b.w) (hg : ∀ i j, b'.getContent i j = b.getContent i j)
-    (x y : Int) : visited rw b' x y = visited rw b x y := by
-  simp only [visited, hw]; exact visits_congr rw b b' y hw hg _ _ _
+/-- what the cross-Show invariant says about a clean unlocked cell, in terms of its *current* content -/
+theorem SyncInv.clean_cell {c : DrawCfg} (hrw : RwOk c.rw) {d : Option Style} {s : Scr} {t : ATerm} (inv : SyncInv c d s t)
+    (x y : Int) (hr : s.cells.inRange x y) (hl : (s.cells.cells x y).lock = false) (hd : s.cells.dirty x y = false) :
+    ∃ st' nl, t.grid x y = shownOfG c s.w x (s.cells.cells x y).currMain (s.cells.cells x y).currComb st' nl ∧
+      ((s.cells.cells x y).currStyle ≠ {} → st' = (s.cells.cells x y).currStyle) ∧
+      ((s.cells.cells x y).currStyle = {} → ∀ d', d = some d' → st' = d') ∧
+      (nl = true → obsWidth c.rw (s.cells.cells x y).currMain > 1 → c.guardLocked = true ∧ s.cells.locked (x + 1) y = true) ∧
+      (∀ b st, t.grid x y = .shown b true st → x + 1 < s.w → t.grid (x + 1) y = .cont) := by
+  have hdd : (s.cells.cells x y).isDirty = false := by simpa [dirty, hr] using hd
+  obtain ⟨hm, hlast⟩ := (Cell.isDirty_false_iff _ hl).1 hdd
+  obtain ⟨st', nl, g1, g2, g3, g4⟩ := inv.g1 x y hr hl hm
+  simp only [Cell.last, Cell.content] at hlast; injection hlast with e1 e2; injection e2 with e2 e3
+  rw [e1, e2] at g1; rw [e3] at g2 g3; rw [e1] at g4
+  refine ⟨st', nl, g1, g2, g3, ?_, inv.g3 x y hr hl hm⟩
+  intro a1 a2
+  obtain ⟨b1, b2⟩ := g4 a1 a2
+  refine ⟨b1, ?_⟩
+  rcases b2.2 with h | h
+  · exact h
+  · rw [getContent_wok hrw s.cells x y hr (inv.wok x y)] at h; simp only at h; omega
 
-theorem displays_of_drawPost {c : DrawCfg} {d : Option Style} {s s' : Scr} {t t' : ATerm} (pre : BufOk c s t)
+theorem displays_of_drawPost {c : DrawCfg} (hrw : RwOk c.rw) {d : Option Style} {s s' : Scr} {t t' : ATerm} (pre : BufOk c s t)
     (dp : DrawPost c d s t s' t') (sw : ScrW) (tr fr : Bool) (hs : sw.s = s') :
-    Displays c { sw := sw, t := t', trusted := tr, d := d, fresh := fr } := by
+    Displays c s.cells { sw := sw, t := t', trusted := tr, d := d, fresh := fr } := by
   have hcw : s'.cells.w = s.cells.w := by rw [dp.sync.cw, dp.w_same, pre.cw]
   have hch : s'.cells.h = s.cells.h := by rw [dp.sync.ch, dp.h_same, pre.ch]
   have hir : ∀ i j, s'.cells.inRange i j ↔ s.cells.inRange i j := by intro i j; simp only [inRange_iff, hcw, hch]
-  refine { cells := ?_, cursor := ?_ }
+  refine { same := ?_, cleaned := ?_, cells := ?_, cursor := ?_ }
+  · simp only [hs]; exact ⟨hcw, hch, dp.gc_same, dp.lock_same⟩
   · intro x y hr hv hl
-    simp only [hs] at hr hv hl ⊢
-    have hr0 := (hir x y).1 hr
-    have hv0 : visited c.rw s.cells x y = true := by rw [← visited_congr c.rw s.cells s'.cells hcw dp.gc_same]; exact hv
-    have hl0 : (s.cells.cells x y).lock = false := by rw [← dp.lock_same]; exact hl
-    obtain ⟨hm, hlast⟩ := dp.done x y hr0 hv0 hl0
-    refine ⟨?_, ?_⟩
-    · simp only [dirty, if_pos hr]; exact (Cell.isDirty_false_iff _ hl).2 ⟨hm, hlast⟩
-    · obtain ⟨st', g1, g2, g3⟩ := dp.sync.g1 x y hr hl hm
-      simp only [Cell.last, Cell.content] at hlast; injection hlast with e1 e2; injection e2 with e2 e3
-      rw [e1, e2] at g1; rw [e3] at g2 g3
-      refine ⟨st', g1, g2, g3, ?_⟩
-      intro hw hlt
-      have := dp.sync.g3 x y hr hl hm (by rw [e1, e2]; exact hw) hlt
-      exact this
+    simp only [hs]
+    obtain ⟨hm, hlast⟩ := dp.done x y hr hv hl
+    have hl' : (s'.cells.cells x y).lock = false := by rw [dp.lock_same]; exact hl
+    simp only [dirty, if_pos ((hir x y).2 hr)]; exact (Cell.isDirty_false_iff _ hl').2 ⟨hm, hlast⟩
+  · intro x y hr hl hd
+    simp only [hs] at hr hl hd ⊢
+    exact dp.sync.clean_cell hrw x y hr hl hd
   · simp only [hs]
     obtain ⟨c1, c2, c3, c4⟩ := dp.cursor_same
     rw [c1, c2, c3, c4]
@@ -384,7 +680,8 @@ theorem resize_diff (s : Scr) (w h : Int) (hne : ¬ (w = s.w ∧ h = s.h)) :
 /-- Show: the invariant is kept, and if the display was trusted (or the size change is noticed now) it is right afterwards -/
 theorem show_step {c : DrawCfg} (hrw : RwOk c.rw) (hct : c.Plain) {wd : World} (inv : WInv c wd) :
     WInv c (wd.step c .show) ∧
-    ((wd.trusted = true ∨ ¬ (wd.sw.ttyw = wd.sw.s.w ∧ wd.sw.ttyh = wd.sw.s.h)) → Displays c (wd.step c .show)) := by
+    ((wd.trusted = true ∨ ¬ (wd.sw.ttyw = wd.sw.s.w ∧ wd.sw.ttyh = wd.sw.s.h)) →
+      Displays c (wd.sw.s.resize (some (wd.sw.ttyw, wd.sw.ttyh))).cells (wd.step c .show)) := by
   have hfini := inv.fini
   by_cases hsz : wd.sw.ttyw = wd.sw.s.w ∧ wd.sw.ttyh = wd.sw.s.h
   · -- no size change
@@ -393,7 +690,7 @@ theorem show_step {c : DrawCfg} (hrw : RwOk c.rw) (hct : c.Plain) {wd : World} (
         { sw := { wd.sw with s := (wd.sw.s.draw c).1 }, t := wd.t.applyAll (wd.sw.s.draw c).2, trusted := wd.trusted,
           d := if wd.fresh then some wd.sw.s.style else if wd.d = some wd.sw.s.style then wd.d else none, fresh := false } := by
       simp only [World.step, ScrW.step, Scr.show, hfini, hsz, resize_same_size, and_self, if_true, Bool.false_eq_true, if_false]
-    rw [hstep]
+    rw [hstep, hres]
     have pre : BufOk c wd.sw.s wd.t :=
       { tw := by rw [inv.tdim.1, hsz.1], th := by rw [inv.tdim.2, hsz.2], cw := inv.buf.cw, ch := inv.buf.ch,
         wok := inv.buf.wok, valid := inv.buf.valid }
@@ -421,7 +718,7 @@ theorem show_step {c : DrawCfg} (hrw : RwOk c.rw) (hct : c.Plain) {wd : World} (
         · have := applyAll_dims wd.t (wd.sw.s.draw c).2
           exact ⟨this.1.trans inv.tdim.1, this.2.trans inv.tdim.2⟩
         · intro h; exfalso; simp only [dp.w_same, dp.h_same] at h; omega
-        · intro _; exact displays_of_drawPost pre dp _ _ _ rfl
+        · intro _; exact displays_of_drawPost hrw pre dp _ _ _ rfl
       · have hall := inv.fr hfr
         have dp := draw_post hrw hct (d := some wd.sw.s.style) pre (fun _ => sinv.of_allDirty hall)
           (by intro h; rw [inv.clear] at h; exact absurd h (by simp))
@@ -432,7 +729,7 @@ theorem show_step {c : DrawCfg} (hrw : RwOk c.rw) (hct : c.Plain) {wd : World} (
         · have := applyAll_dims wd.t (wd.sw.s.draw c).2
           exact ⟨this.1.trans inv.tdim.1, this.2.trans inv.tdim.2⟩
         · intro h; exfalso; simp only [dp.w_same, dp.h_same] at h; omega
-        · intro _; exact displays_of_drawPost pre dp _ _ _ rfl
+        · intro _; exact displays_of_drawPost hrw pre dp _ _ _ rfl
   · -- the size change is noticed: resize + invalidate, then a full repaint of a display nothing is known about
     have hres := resize_diff wd.sw.s wd.sw.ttyw wd.sw.ttyh hsz
     generalize hs1 : Scr.mk wd.sw.ttyw wd.sw.ttyh (wd.sw.s.cells.resize wd.sw.ttyw wd.sw.ttyh).invalidate wd.sw.s.style
@@ -442,7 +739,7 @@ theorem show_step {c : DrawCfg} (hrw : RwOk c.rw) (hct : c.Plain) {wd : World} (
         { sw := { wd.sw with s := (s1.draw c).1 }, t := wd.t.applyAll (s1.draw c).2, trusted := true,
           d := some wd.sw.s.style, fresh := false } := by
       simp only [World.step, ScrW.step, Scr.show, hfini, hres, hsz, if_false, Bool.false_eq_true]
-    rw [hstep]
+    rw [hstep, hres]
     have ok := resize_invalidate_ok hrw wd.sw.s wd.sw.ttyw wd.sw.ttyh inv.buf
     rw [hs1] at ok
     have e1 : s1.w = wd.sw.ttyw ∧ s1.h = wd.sw.ttyh ∧ s1.style = wd.sw.s.style ∧ s1.clear = false ∧ s1.fini = false := by
@@ -459,7 +756,7 @@ theorem show_step {c : DrawCfg} (hrw : RwOk c.rw) (hct : c.Plain) {wd : World} (
     · have := applyAll_dims wd.t (s1.draw c).2
       exact ⟨this.1.trans inv.tdim.1, this.2.trans inv.tdim.2⟩
     · intro h; exfalso; simp only [dp.w_same, dp.h_same, e1.1, e1.2.1] at h; omega
-    · intro _; exact displays_of_drawPost sinv.bufOk dp _ _ _ rfl
+    · intro _; exact displays_of_drawPost hrw sinv.bufOk dp _ _ _ rfl
 
 end Tcell
 
@@ -495,7 +792,8 @@ theorem prep_ok {c : DrawCfg} (hrw : RwOk c.rw) (s : Scr) (w h : Int) (hb : BufO
 
 /-- Sync: whatever the display held before, afterwards it is right and trusted -/
 theorem sync_step {c : DrawCfg} (hrw : RwOk c.rw) (hct : c.Plain) {wd : World} (inv : WInv c wd) :
-    WInv c (wd.step c .sync) ∧ Displays c (wd.step c .sync) ∧ (wd.step c .sync).trusted = true ∧
+    WInv c (wd.step c .sync) ∧ Displays c (wd.sw.s.prepSync (some (wd.sw.ttyw, wd.sw.ttyh))).cells (wd.step c .sync) ∧
+    (wd.step c .sync).trusted = true ∧
     (wd.step c .sync).d = some (wd.step c .sync).sw.s.style := by
   have hfini := inv.fini
   have ok := (prep_ok hrw wd.sw.s wd.sw.ttyw wd.sw.ttyh inv.buf inv.fini inv.clear).1
@@ -518,12 +816,13 @@ theorem sync_step {c : DrawCfg} (hrw : RwOk c.rw) (hct : c.Plain) {wd : World} (
   · have := applyAll_dims wd.t (s2.draw c).2
     exact ⟨this.1.trans inv.tdim.1, this.2.trans inv.tdim.2⟩
   · intro h; exfalso; simp only [dp.w_same, dp.h_same, e1, e2] at h; omega
-  · exact displays_of_drawPost pre dp _ _ _ rfl
+  · exact displays_of_drawPost hrw pre dp _ _ _ rfl
   · simp only [dp.style_same, e3]
 
 /-- a window resize that reaches the library (mainLoop's resize branch): afterwards the display is right and trusted -/
 theorem notify_step {c : DrawCfg} (hrw : RwOk c.rw) (hct : c.Plain) {wd : World} (inv : WInv c wd) (w h : Int) :
-    WInv c (wd.step c (.ttyResizeNotify w h)) ∧ Displays c (wd.step c (.ttyResizeNotify w h)) ∧
+    WInv c (wd.step c (.ttyResizeNotify w h)) ∧
+    Displays c (wd.sw.s.prepResize (some (w, h))).cells (wd.step c (.ttyResizeNotify w h)) ∧
     (wd.step c (.ttyResizeNotify w h)).trusted = true ∧
     (wd.step c (.ttyResizeNotify w h)).d = some (wd.step c (.ttyResizeNotify w h)).sw.s.style := by
   have ok := (prep_ok hrw wd.sw.s w h inv.buf inv.fini inv.clear).2
@@ -545,7 +844,7 @@ theorem notify_step {c : DrawCfg} (hrw : RwOk c.rw) (hct : c.Plain) {wd : World}
   · have := applyAll_dims (wd.t.resized w h) (s2.draw c).2
     exact ⟨this.1, this.2⟩
   · intro hh; exfalso; simp only [dp.w_same, dp.h_same, e1, e2] at hh; omega
-  · exact displays_of_drawPost sinv.bufOk dp _ _ _ rfl
+  · exact displays_of_drawPost hrw sinv.bufOk dp _ _ _ rfl
   · simp only [dp.style_same, e3]
 
 end Tcell
@@ -553,12 +852,14 @@ end Tcell
 namespace Tcell
 open Buf
 
-theorem winv_bufop {c : DrawCfg} {wd : World} (inv : WInv c wd) (b' : Buf) (hb : BufStep c.rw wd.sw.s.cells b') :
+theorem winv_bufop {c : DrawCfg} {wd : World} (inv : WInv c wd) (b' : Buf) (hb : BufStep c.rw wd.sw.s.cells b')
+    (hblank : c.guardLocked = true → ∀ i j, wd.sw.s.cells.inRange i j → (b'.cells i j).lastMain ≠ 0 →
+      BlankOk wd.sw.s.cells i j → BlankOk b' i j) :
     WInv c { wd with sw := { wd.sw with s := { wd.sw.s with cells := b' } } } :=
   { buf := { cw := by simp only; rw [hb.w]; exact inv.buf.cw, ch := by simp only; rw [hb.h]; exact inv.buf.ch,
              wok := hb.wok inv.buf.wok, valid := ⟨inv.buf.valid.1, hb.valid inv.buf.valid.2⟩ },
     tdim := inv.tdim, clear := inv.clear, fini := inv.fini, mism := inv.mism,
-    tr := fun h => (inv.tr h).bufStep hb rfl rfl rfl,
+    tr := fun h => (inv.tr h).bufStep hb rfl rfl rfl hblank,
     fr := fun h x y hr => hb.dirty x y (inv.fr h x y (by simpa [inRange_iff, hb.w, hb.h] using hr)) }
 
 /-- every operation preserves the world invariant -/
@@ -567,14 +868,25 @@ theorem step_inv {c : DrawCfg} (hrw : RwOk c.rw) (hct : c.Plain) {wd : World} (i
   cases op with
   | setContent x y m comb st =>
     exact winv_bufop inv _ (bufStep_setContent c.rw _ x y m comb st hv)
+      (fun _ i j _ hm hb => setContent_blank c.rw _ x y m comb st i j hm hb)
   | fill r st =>
-    exact winv_bufop inv _ (bufStep_fillV c.fillZW c.rw _ r st hv.1 hv.2)
+    exact winv_bufop inv _ (bufStep_fillV c.fillZW c.rw hrw.space _ r st hv.1 hv.2) (fun _ i j _ _ _ => fillV_blank c.fillZW c.rw _ r st i j)
   | lockRegion x y w h lock =>
-    have e : wd.step c (.lockRegion x y w h lock) =
-        { wd with sw := { wd.sw with s := { wd.sw.s with cells := lockRows wd.sw.s.cells x y w lock h.toNat } } } := by
-      simp [World.step, ScrW.step, hct.ng, ATerm.applyAll]
-    rw [e]
-    exact winv_bufop inv _ (bufStep_lockRows c.rw _ x y w lock _)
+    cases hg : c.guardLocked
+    · have e : wd.step c (.lockRegion x y w h lock) =
+          { wd with sw := { wd.sw with s := { wd.sw.s with cells := lockRows wd.sw.s.cells x y w lock h.toNat } } } := by
+        simp [World.step, ScrW.step, hg, ATerm.applyAll]
+      rw [e]
+      exact winv_bufop inv _ (bufStep_lockRows c.rw _ x y w lock _) (by intro h'; rw [hg] at h'; exact absurd h' (by decide))
+    · have e : wd.step c (.lockRegion x y w h lock) =
+          { wd with sw := { wd.sw with s := { wd.sw.s with cells := lockRowsG wd.sw.s.cells x y w lock h.toNat } } } := by
+        simp [World.step, ScrW.step, hg, ATerm.applyAll]
+      rw [e]
+      refine winv_bufop inv _ (bufStep_lockRowsG c.rw _ x y w lock _) ?_
+      intro _ i j hr hm hb
+      cases lock
+      · exact lockRowsG_false_blank _ x y w _ i j hr hm hb
+      · exact lockRowsG_true_blank _ x y w i j hb _
   | setStyle st =>
     have hf := inv.fini
     simp only [World.step, ScrW.step, hf, Bool.false_eq_true, if_false, ATerm.applyAll, List.foldl_nil]
@@ -661,7 +973,7 @@ open Buf
 theorem show_writes {c : DrawCfg} (hrw : RwOk c.rw) (hct : c.Plain) {wd : World} (inv : WInv c wd)
     (htr : wd.trusted = true) (hsz : wd.sw.ttyw = wd.sw.s.w ∧ wd.sw.ttyh = wd.sw.s.h) :
     ∃ ws, (wd.step c .show).t.writes = ws ++ wd.t.writes ∧
-      ∀ p ∈ ws, wd.sw.s.cells.dirty p.1 p.2 = true ∧ visited c.rw wd.sw.s.cells p.1 p.2 = true := by
+      ∀ p ∈ ws, wd.sw.s.cells.dirty p.1 p.2 = true ∧ visitedG c wd.sw.s.cells p.1 p.2 = true := by
   have hfini := inv.fini
   have hstep : (wd.step c .show).t = wd.t.applyAll (wd.sw.s.draw c).2 := by
     simp only [World.step, ScrW.step, Scr.show, hfini, hsz, resize_same_size, and_self, if_true, Bool.false_eq_true, if_false]
@@ -671,5 +983,26 @@ theorem show_writes {c : DrawCfg} (hrw : RwOk c.rw) (hct : c.Plain) {wd : World}
       wok := inv.buf.wok, valid := inv.buf.valid }
   have dp := draw_post hrw hct (d := wd.d) pre (fun _ => inv.tr htr) (by intro h; rw [inv.clear] at h; exact absurd h (by simp))
   exact dp.writes
+
+end Tcell
+
+namespace Tcell
+open Buf
+
+/-- which cells the payloads of a Show occupy (addressed cells and right halves of two-column glyphs), when the display is
+trusted and the size is unchanged: with the locked-neighbour guard compiled in none of them is locked -/
+theorem show_covers {c : DrawCfg} (hrw : RwOk c.rw) (hct : c.Plain) (hg : c.guardLocked = true) {wd : World} (inv : WInv c wd)
+    (htr : wd.trusted = true) (hsz : wd.sw.ttyw = wd.sw.s.w ∧ wd.sw.ttyh = wd.sw.s.h) :
+    ∃ cs, (wd.step c .show).t.covered = cs ++ wd.t.covered ∧ ∀ p ∈ cs, wd.sw.s.cells.locked p.1 p.2 = false := by
+  have hfini := inv.fini
+  have hstep : (wd.step c .show).t = wd.t.applyAll (wd.sw.s.draw c).2 := by
+    simp only [World.step, ScrW.step, Scr.show, hfini, hsz, resize_same_size, and_self, if_true, Bool.false_eq_true, if_false]
+  rw [hstep]
+  have pre : BufOk c wd.sw.s wd.t :=
+    { tw := by rw [inv.tdim.1, hsz.1], th := by rw [inv.tdim.2, hsz.2], cw := inv.buf.cw, ch := inv.buf.ch,
+      wok := inv.buf.wok, valid := inv.buf.valid }
+  have dp := draw_post hrw hct (d := wd.d) pre (fun _ => inv.tr htr) (by intro h; rw [inv.clear] at h; exact absurd h (by simp))
+  obtain ⟨cs, h1, h2⟩ := dp.covers
+  exact ⟨cs, h1, h2 hg⟩
 
 end Tcell
